@@ -13,6 +13,7 @@ TEXT_CHUNKS = [[], [65], [66, 10], [0xC3, 0xA9], [32, 120, 121, 122]]
 SPLIT_UTF8 = [[0xC3], [0xA9]]              # one character split over two chunks
 BIN_CHUNKS = [[], [0], [255, 0], [10], [200, 201, 202]]
 REASONS = [[], [119, 104, 121], [233, 32, 8364], [0x1F600], [110, 111, 10, 120]]
+UNDECODABLE = [[0xFF, 0xFE], [0xC3], [0xE2, 0x98], [0xA9, 65]]      # invalid (or truncated) under charset=utf8
 
 
 class C09(Prop):
@@ -20,15 +21,14 @@ class C09(Prop):
     budgets = {'quick': 2500, 'thorough': 30000}
     time_limit = {'quick': 60, 'thorough': 600}
     rule = ('histories of 1-3 runs (startTestRun ... stopTestRun) on the same ExtendedToStreamDecorator/StreamToExtendedDecorator pair, explicit time() values '
-            'in some runs and none in others; per run 0-5 tests (3 ids, possibly repeated), each outcome kind, payload = exc_info / details (0-3 details out of 5 names incl. '
-            '"reason", "traceback" and a non-ASCII name, 0-4 chunks each biased to 0,1,2 chunks with leading/trailing/all-empty chunks, a UTF-8 '
-            'character split over two chunks; 6 content types incl. parameters) / reason text (empty, ASCII, non-ASCII, astral) / nothing; '
+            'in some runs and none in others; per run 0-5 tests (4 ids incl. the empty string, possibly repeated), each outcome kind, payload = exc_info / details (0-3 details out of 6 names incl. '
+            '"reason", "traceback", a non-ASCII name and the empty name, 0-4 chunks each biased to 0,1,2 chunks with leading/trailing/all-empty chunks, a UTF-8 '
+            'character split over two chunks, 10% of the utf8 text details with bytes invalid in that charset; 15 content types incl. parameters, two pairs differing only in the letter case of a parameter value; histories with an odd number of tests hand over the same Content / ContentType objects again and again, the others build them on the fly and drop them) / reason text (empty, ASCII, non-ASCII, astral) / nothing; '
             'tags() before and inside tests, time() before startTest and before the outcome or never; startTestRun explicit or implied. '
             'thorough adds all payloads with <= 2 details x <= 3 chunks over a 2-chunk alphabet for 3 outcome kinds. '
             'non-trivial = at least one test with a multi-chunk or empty detail, or >= 2 tests; distinct = distinct input S-expression')
     assumptions = ['translator tie (harness/pystream.py): _convert and ExtendedToStreamDecorator.startTestRun are matched statement by statement on every run (each self.status(...) call with exactly its keyword set); trusted: the translator and the reading of the loops over iter_bytes()/details.items() by TTV/Model/ConvertSrc.lean; the content-type functions (_quote, _make_content_type) are not translated (C16); trusted normalisations before matching: alpha-renaming of the locals (recognised by what is bound to them), spellings of None tests, `for k in details: v = details[k]` = items(), the two pure bindings at the head of the details loop and the run of attribute resets in startTestRun in any order, `x = self.current_tags` right before its only use, utf8 = utf-8 - the order of every call (test.id(), self._now(), startTestRun, self.status) is asserted as written',
                    'content types are opaque tokens compared for equality: the render (repr(ContentType)) / parse (_make_content_type) round trip is C16\'s (another family)',
-                   'text-typed details carry bytes valid in their charset and a detail named "reason" is text-typed (ExtendedToStreamDecorator is itself a StreamSummary and formats them; noted in DESIGN section 0)',
                    'an exc_info is (ValueError, ValueError("boom"), None): TracebackContent yields one chunk, canonicalised to the token bytes "TB"; traceback formatting is not modelled',
                    'addSkip gets reason or details (alternatives, as in the extended API), never both',
                    'datetime.now(utc) is canonicalised to `now` after checking it is tz-aware UTC and inside the run window',
@@ -44,7 +44,7 @@ class C09(Prop):
                 'same name and content type with the concatenated bytes. The hand-written model is tied to the code by a differential check of both the intermediate '
                 'stream and the final call log.',
         'note': 'trusted: Lean kernel, the models TTV/Model/StreamConvert.lean + Stream.lean, the harness; content types are opaque tokens (MIME render/parse round trip belongs to C16); '
-                'traceback text abstracted to a token; text payloads valid in their charset',
+                'traceback text abstracted to a token',
         'technique': 'Lean 4 induction over histories and chunk lists (one-chunk look-ahead loop = declarative chunking; table consumer = one report per test), composed with the C10 '
                      'refinement; executable spec shared with a differential correspondence check',
     }
@@ -57,11 +57,23 @@ class C09(Prop):
         return out
 
     # ----- implementation side
+    keep = None
+
     def details(self, ds):
+        """the details dict of one outcome call.  `self.keep` None: every Content / ContentType is built on the fly and dies with
+        the call (the next one may land on the same address); a dict: equal ContentTypes and equal Contents are ONE object each,
+        kept alive and handed over again and again (identity must not matter either way)"""
         from testtools.content import Content
         out = {}
         for name, mime, chunks in ds:
-            out[S.NAMES[name]] = Content(S.content_type(mime), (lambda cs: (lambda: [bytes(c) for c in cs]))(chunks))
+            if self.keep is None:
+                out[S.NAMES[name]] = Content(S.content_type(mime), (lambda cs: (lambda: [bytes(c) for c in cs]))(chunks))
+            else:
+                ct = self.keep.setdefault(('type', mime), S.content_type(mime))
+                key = ('content', mime, repr(chunks))
+                if key not in self.keep:
+                    self.keep[key] = Content(ct, (lambda cs: (lambda: [bytes(c) for c in cs]))(chunks))
+                out[S.NAMES[name]] = self.keep[key]
         return out
 
     def canon_tb(self, x):
@@ -75,6 +87,8 @@ class C09(Prop):
     def run_impl(self, inp):
         from testtools import ExtendedToStreamDecorator, CopyStreamResult, StreamToExtendedDecorator, PlaceHolder
         explicit, runs = inp
+        # histories with an odd number of tests re-use their Content / ContentType objects, the others build fresh ones
+        self.keep = {} if sum(len(r) for r in runs) % 2 else None
         try:
             clock = S.Clock()
             mid = _Mid(clock)
@@ -123,9 +137,9 @@ class C09(Prop):
 
     # ----- generators
     def gen_detail(self, rng, name):
-        text = rng.random() < 0.6 or name == 0
-        mime = rng.choice([1, 1, 2, 4, 9, 10] if text else [0, 0, 3, 6, 7, 8, 11])
-        pool = BIN_CHUNKS if mime in (0, 3, 4, 6, 7, 8, 11) else TEXT_CHUNKS
+        text = rng.random() < 0.6 or (name == 0 and rng.random() < 0.7)          # (a detail named "reason" may be binary too)
+        mime = rng.choice([1, 1, 2, 4, 9, 10, 12] if text else [0, 0, 3, 6, 7, 8, 11, 13])
+        pool = BIN_CHUNKS if mime in (0, 3, 4, 6, 7, 8, 11, 13) else TEXT_CHUNKS
         n = rng.choice([0, 1, 1, 2, 2, 3, 4])
         chunks = [list(rng.choice(pool)) for _ in range(n)]
         r = rng.random()
@@ -135,13 +149,18 @@ class C09(Prop):
             chunks[0] = []                            # leading empty
         elif r < 0.36 and n:
             chunks[-1] = []                           # trailing empty
-        elif r < 0.44 and mime in (1, 2, 9, 10):
+        elif r < 0.44 and mime in (1, 2, 9, 10, 12):
             k = rng.randrange(len(chunks) + 1)
             chunks[k:k] = [list(c) for c in SPLIT_UTF8]
+        elif r < 0.54 and mime in (1, 2, 9, 10, 12):
+            # declared text with a charset, bytes invalid in it (the decorator is a StreamSummary itself and formats the details
+            # of failed tests: it must not lose the test over that)
+            k = rng.randrange(len(chunks) + 1)
+            chunks[k:k] = [list(rng.choice(UNDECODABLE))]
         return [name, mime, chunks]
 
     def gen_details(self, rng):
-        names = rng.sample([0, 1, 2, 3, 4], rng.choice([0, 1, 1, 2, 2, 3]))
+        names = rng.sample([0, 1, 2, 3, 4, 5], rng.choice([0, 1, 1, 2, 2, 3]))          # 5: the empty name
         return [self.gen_detail(rng, n) for n in names]
 
     def gen_result(self, rng):
@@ -167,7 +186,7 @@ class C09(Prop):
         for _ in range(n):
             t0 = ['some', next(clock)] if timed and rng.random() < 0.6 else None
             t1 = ['some', next(clock)] if timed and rng.random() < 0.6 else None
-            tests.append([rng.choice([0, 1, 2]), self.gen_tags(rng), t0, self.gen_tags(rng), t1, self.gen_result(rng)])
+            tests.append([rng.choice([0, 1, 2, S.EMPTY_ID]), self.gen_tags(rng), t0, self.gen_tags(rng), t1, self.gen_result(rng)])
         return tests
 
     def gen(self, rng, tier):
@@ -194,6 +213,16 @@ class C09(Prop):
                 for c2 in chunkings:
                     ds2 = ds + [[0 if kind == 'skip' else 3, 1 if kind == 'skip' else 0, [list(x) for x in c2]]]
                     yield [True, [[[0, None, ['some', 1], None, ['some', 2], self.wrap(kind, ds2)]], [[1, None, None, None, None, ['success', None]]]]]
+
+        # utf8-declared details with invalid bytes under the names the summaries treat specially and under the empty name, for the
+        # empty test id too; twice in a row (odd / even number of tests: re-used / fresh Content objects)
+        for kind in ('failure', 'xfail', 'skip', 'success', 'error'):
+            for name in (0, 1, 2, 5):
+                for chunk in UNDECODABLE:
+                    for tid in (0, S.EMPTY_ID):
+                        t = [tid, None, None, None, None, self.wrap(kind, [[name, 1, [list(chunk)]], [2, 13, [[0, 255]]]])]
+                        yield [True, [[t]]]
+                        yield [True, [[t, [0, None, None, None, None, self.wrap(kind, [[name, 12, [[65], list(chunk)]]])]]]]
 
     def wrap(self, kind, ds):
         if kind == 'success':
